@@ -88,6 +88,23 @@ def theorem_names(vfile):
     return re.findall(r"^\s*(?:Theorem|Example|Corollary)\s+([A-Za-z0-9_']+)", src, flags=re.M)
 
 
+def coq_deps(vfile, seen=None):
+    """S2 modules a .v file depends on, transitively (by its Require lines)"""
+    seen = seen if seen is not None else set()
+    try:
+        src = strip_comments(open(vfile).read())
+    except OSError:
+        return seen
+    for stmt in re.findall(r"From\s+S2\s+Require\s+(?:Import|Export)?\s*([^.]*(?:\.[A-Za-z][^.]*)*)\.", src):
+        for mod in stmt.split():
+            if mod == "Props.Examples":
+                continue      # the non-vacuity examples run whole models; the property theorems do not depend on that
+            if mod not in seen and re.match(r"^[A-Z][A-Za-z]*\.[A-Za-z0-9_]+$", mod):
+                seen.add(mod)
+                coq_deps(os.path.join(COQ, *mod.split(".")) + ".v", seen)
+    return seen
+
+
 def proof_stage(pid):
     """Build the property's theorem file (and everything it depends on) with a full make, then
     re-run coqc on it to capture Print Assumptions."""
@@ -136,7 +153,16 @@ def proof_stage(pid):
     if res["gate"]:
         res["broken"].append("forbidden tokens in the development: %s" % res["gate"][:5])
     if not ok:
-        res["broken"].append("translator failed: " + log[-300:])
+        # a kernel the translators cannot read breaks the tie of the properties whose theorems (or model) use it
+        try:
+            import py2coq
+            failed = list(py2coq.FAILED)
+        except Exception:  # noqa
+            failed = ["?"]
+        used = [f for f in failed if f == "?" or f in coq_deps(vfile)]
+        res["translator_failed_modules"] = failed
+        if used:
+            res["broken"].append("translator failed for %s (used by Props/%s.v): %s" % (used, pid, log[-300:]))
     res["discharged"] = len(names) if not res["broken"] else 0
     res["ok"] = not res["broken"]
     res["wall_s"] = time.time() - t0
